@@ -80,6 +80,11 @@ TD = {
     'share': dict(times=[((12, 10, 0, 0), (12, 30, 0, 0))]),
     'feb29': dict(dates=[((2, 29), (2, 29))]),
     'thu': dict(weekdays=[4]),
+    # a wrapping range that sorts AFTER an ordinary one (moments after midnight / New Year)
+    'wrap2': dict(times=[((8, 0, 0, 0), (12, 0, 0, 0)), ((22, 0, 0, 0), (2, 0, 0, 0))]),
+    'wrapdates': dict(dates=[((3, 1), (4, 10)), ((12, 15), (1, 15))]),
+    'wrapboth': dict(times=[((6, 0, 0, 0), (7, 0, 0, 0)), ((23, 0, 0, 0), (1, 0, 0, 0))],
+                     dates=[((1, 2), (1, 2)), ((12, 31), (1, 1))]),
     'empty': dict(times=[]),
     'none': dict(),
     'dates': dict(dates=[((2, 28), (3, 1))]),
@@ -248,8 +253,18 @@ def configs(tier):
             out.append(dict(kind='chain', blocks=(a, b), t0=DAY + 12 * 3600 * US + 5 * 60 * US,
                             span=2 * 3600 * US, read_lat=1, utc=False, actions=(), chain=new,
                             order=order))
+    # S2d: the reload lands within microseconds of another block's boundary: the instant at
+    # which the scheduler task resumes is swept over the boundary in 1-2 us steps
+    for x, y, y2 in pairs[:2]:
+        b = first_boundaries(x)[0]
+        for hold, rl in ((0, 1), (0, 20), (1500, 1), (1500, 20)):
+            lo, hi, step = (-hold - 16, -hold + 6, 1) if rl == 1 else (-hold - 130, -hold + 30, 3)
+            for off in range(lo, hi, step):
+                act = (('reconfig', b + off, 1, y2, hold),)
+                out.append(dict(kind='reconfig', blocks=(x, y), t0=b - 600 * US, span=3600 * US,
+                                read_lat=rl, utc=False, actions=act, max_dev=0))
     # S3: multi-day runs
-    for names, t0, days in [(('yearend', 'dates', 'weekend'), wall(2023, 12, 30, 12), 3.2),
+    for names, t0, days in [(('wrap2', 'wrapdates', 'wrapboth'), wall(2023, 12, 31, 18), 1.8),(('yearend', 'dates', 'weekend'), wall(2023, 12, 30, 12), 3.2),
                             (('leapday', 'dates', 'wed'), wall(2024, 2, 27, 22), 3.2),
                             (('span-yearend', 'wrap', 'hour'), wall(2023, 12, 31, 20), 1.5),
                             (('leapday', 'weekend'), wall(2023, 2, 27, 22), 2.2)]:
@@ -266,6 +281,18 @@ def configs(tier):
                 out.append(dict(kind='jump', blocks=names, t0=DAY + 11 * 3600 * US + 30 * 60 * US,
                                 span=5 * 3600 * US, read_lat=1, utc=False,
                                 actions=(('jump', when, j),)))
+    # S4b: the clock reset (detected at the next wake-up) lands within microseconds of a boundary
+    for names, bnd in ((('offhour',), DAY + 12 * 3600 * US + 20 * 60 * US),
+                       (('span', 'hour'), DAY + 12 * 3600 * US + 10 * 60 * US)):
+        t0 = DAY + 11 * 3600 * US + 30 * 60 * US
+        wake = DAY + 12 * 3600 * US            # the scheduler sleeps until 12:00
+        for rl in (1, 20):
+            # (the scheduler wakes about 1 ms early - its overhead estimate - so the window is swept
+            # over the whole last millisecond)
+            for eps in (range(-1040, 12) if rl == 1 else range(-1100, 120, 3)):
+                delta = bnd - eps - wake
+                out.append(dict(kind='jump', blocks=names, t0=t0, span=4 * 3600 * US, read_lat=rl,
+                                utc=False, actions=(('jump', 'mid-sleep', delta),), max_dev=0))
     if tier == 'thorough':
         for c in out:
             c.setdefault('max_dev', 2)      # up to two wake-up latency deviations per execution
